@@ -1,58 +1,124 @@
 /-
-  Names: the generated graphs of rmgrName / operationName (Generated/Wal.lean, obtained by executing the
-  code) against the Spec's hand-written PostgreSQL tables.  Kept apart from Proofs/Wal.lean so that the
-  totality theorems (C10) do not depend on the content of the generated tables.
+  Names: the generated graphs of rmgrName / operationNameFor (Generated/Wal.lean, obtained by executing the
+  code on pages of every PostgreSQL version) against the Spec's hand-written PostgreSQL tables (Spec/Wal.lean
+  `pgRmgrName`, `pgOpTable`).  Kept apart from Proofs/Wal.lean so that the totality theorems (C10) do not depend
+  on the content of the generated tables.
 -/
 import PgVerif.Model.Wal
 import PgVerif.Spec.Wal
 namespace PgVerif.Proofs.Wal
 open PgVerif PgVerif.Model.Wal
-open PgVerif.Spec.Wal (pgOpName pgRmgrName normRm)
+open PgVerif.Spec.Wal (pgOpName pgRmgrName opMask pageMagicTable)
 
 /-! ## Names -/
 
-/-- every generated run (rmid, lo, hi, name): wherever PostgreSQL `ver` defines a name inside the run, it is `name`
-(Database, rmid 4, is skipped when `skipDb`) -/
-def runsAgree (ver : Nat) (skipDb : Bool) : Bool :=
-  Generated.Wal.opRuns.all fun e =>
-    (skipDb && e.1 == 4) ||
-    (List.range (e.2.2.1 + 1 - e.2.1)).all fun k =>
-      match pgOpName ver e.1 (e.2.1 + k) with
-      | none => true
-      | some n => n == e.2.2.2
+/-- the run of the vocabulary that holds `info` -/
+def runOf (runs : List (Nat × Nat × String)) (info : Nat) : Option (Nat × Nat × String) :=
+  runs.find? (fun e => e.1 ≤ info && info ≤ e.2.1)
 
-theorem runsAgree_14 : runsAgree 14 false = true := by decide +kernel
-theorem runsAgree_15 : runsAgree 15 true = true := by decide +kernel
+theorem opNameIn_eq (runs : List (Nat × Nat × String)) (info : Nat) :
+    opNameIn runs info = match runOf runs info with
+      | some e => e.2.2
+      | none => defaultOpName info := rfl
 
-theorem pgOpName_ver (ver rmid info : Nat) :
-    pgOpName ver rmid info = pgOpName (if ver ≤ 14 then 14 else 15) rmid info := by
-  unfold pgOpName
-  by_cases h : ver ≤ 14 <;> simp [h]
+/-- (version, rmid, opcode): the opcodes PostgreSQL `version` does not have yet (no record of that version carries them)
+for which the tool nevertheless prints the name a later version gives them: Transaction INVALIDATIONS (since 14),
+Btree INSERT_POST and DEDUP (since 13), Gist ASSIGN_LSN (since 13) -/
+def namedAhead : List (Nat × Nat × Nat) :=
+  [(12, 1, 0x60), (13, 1, 0x60), (12, 11, 0x50), (12, 11, 0x60), (12, 14, 0x70)]
 
-theorem opName_of_runs (ver : Nat) (skipDb : Bool) (hr : runsAgree ver skipDb = true) (rmid info : Nat) (n : String)
-    (hdb : skipDb = true → rmid ≠ 4) (h : pgOpName ver rmid info = some n) :
-    operationName rmid info = n ∨ operationName rmid info = defaultOpName info := by
-  unfold operationName
-  cases hf : Generated.Wal.opRuns.find? (fun e => e.1 == rmid && decide (e.2.1 ≤ info) && decide (info ≤ e.2.2.1)) with
-  | none => exact .inr rfl
-  | some e =>
-    left
-    have hmem := List.mem_of_find?_eq_some hf
-    have hp := List.find?_some hf
-    simp only [Bool.and_eq_true, beq_iff_eq, decide_eq_true_eq] at hp
-    obtain ⟨⟨h1, h2⟩, h3⟩ := hp
-    unfold runsAgree at hr
-    rw [List.all_eq_true] at hr
-    have he := hr e hmem
-    simp only [Bool.or_eq_true, Bool.and_eq_true, beq_iff_eq, List.all_eq_true, List.mem_range] at he
-    rcases he with ⟨hs, h4⟩ | he
-    · exact absurd (h1 ▸ h4) (hdb hs)
-    · have := he (info - e.2.1) (by omega)
-      rw [show e.2.1 + (info - e.2.1) = info by omega, h1, h] at this
-      simp only [beq_iff_eq] at this
-      exact this.symm
+/-- vocabulary `cls` against PostgreSQL `ver` for resource manager `rm`, at each of the 256 info bytes: where PostgreSQL
+names the operation the vocabulary has exactly that name; where it does not, the vocabulary has no name (the tool
+prints the placeholder) or — only for the opcodes listed in `namedAhead` — the name PostgreSQL 16 gives that opcode -/
+def exactOn (cls ver rm : Nat) : Bool :=
+  (List.range 256).all fun info =>
+    match pgOpName ver rm info, runOf (opRunsOf cls rm) info with
+    | some n, some e => e.2.2 == n
+    | some _, none => false
+    | none, none => true
+    | none, some e => namedAhead.contains (ver, rm, info &&& opMask rm) && pgOpName 16 rm info == some e.2.2
 
-theorem rm_lt_22 : ∀ rm < 22, ∀ n, pgRmgrName rm = some n → normRm (rmgrName rm) = normRm n := by decide +kernel
+def exact (cls ver : Nat) : Bool := (List.range 22).all (exactOn cls ver)
+
+theorem exact_12 : exact 0 12 = true := by decide +kernel
+theorem exact_13 : exact 0 13 = true := by decide +kernel
+theorem exact_14 : exact 1 14 = true := by decide +kernel
+theorem exact_15 : exact 2 15 = true := by decide +kernel
+theorem exact_16 : exact 2 16 = true := by decide +kernel
+
+theorem pgOps_none (rm : Nat) (h : 22 ≤ rm) : Spec.Wal.pgOps rm = [] := by
+  unfold Spec.Wal.pgOps
+  split <;> first | omega | rfl
+
+theorem opRuns13_none (rm : Nat) (h : 22 ≤ rm) : Generated.Wal.opRuns13 rm = [] := by
+  unfold Generated.Wal.opRuns13
+  split <;> first | omega | rfl
+theorem opRuns14_none (rm : Nat) (h : 22 ≤ rm) : Generated.Wal.opRuns14 rm = [] := by
+  unfold Generated.Wal.opRuns14
+  split <;> first | omega | rfl
+theorem opRuns16_none (rm : Nat) (h : 22 ≤ rm) : Generated.Wal.opRuns16 rm = [] := by
+  unfold Generated.Wal.opRuns16
+  split <;> first | omega | rfl
+
+theorem opRunsOf_none (cls rm : Nat) (h : 22 ≤ rm) : opRunsOf cls rm = [] := by
+  unfold opRunsOf
+  split
+  · exact opRuns13_none rm h
+  · exact opRuns14_none rm h
+  · exact opRuns16_none rm h
+
+/-- ids PostgreSQL does not define (22..): PostgreSQL names nothing, the tool prints the placeholder -/
+theorem names_beyond (cls ver rm info : Nat) (h : 22 ≤ rm) :
+    pgOpName ver rm info = none ∧ opNameIn (opRunsOf cls rm) info = defaultOpName info := by
+  constructor
+  · unfold pgOpName; rw [pgOps_none rm h]; rfl
+  · rw [opNameIn_eq, opRunsOf_none cls rm h]; rfl
+
+/-- what `exact` says about one cell -/
+theorem exact_cell (cls ver : Nat) (he : exact cls ver = true) (rm info : Nat) (hi : info < 256) :
+    (∀ n, pgOpName ver rm info = some n → opNameIn (opRunsOf cls rm) info = n) ∧
+    (pgOpName ver rm info = none → opNameIn (opRunsOf cls rm) info = defaultOpName info ∨
+      ((ver, rm, info &&& opMask rm) ∈ namedAhead ∧ pgOpName 16 rm info = some (opNameIn (opRunsOf cls rm) info))) := by
+  by_cases hrm : rm < 22
+  · unfold exact at he
+    rw [List.all_eq_true] at he
+    have h1 := he rm (List.mem_range.mpr hrm)
+    unfold exactOn at h1
+    rw [List.all_eq_true] at h1
+    have h2 := h1 info (List.mem_range.mpr hi)
+    rw [opNameIn_eq]
+    cases hs : pgOpName ver rm info with
+    | none =>
+      refine ⟨fun n hn => (by cases hn), fun _ => ?_⟩
+      cases hr : runOf (opRunsOf cls rm) info with
+      | none => exact .inl rfl
+      | some e =>
+        rw [hs, hr] at h2
+        right
+        simpa using h2
+    | some n =>
+      refine ⟨fun n' hn => ?_, fun h => (by cases h)⟩
+      cases hn
+      cases hr : runOf (opRunsOf cls rm) info with
+      | none => rw [hs, hr] at h2; cases h2
+      | some e =>
+        rw [hs, hr] at h2
+        simpa using h2
+  · obtain ⟨a, b⟩ := names_beyond cls ver rm info (by omega)
+    exact ⟨fun n hn => (by rw [a] at hn; cases hn), fun _ => Or.inl b⟩
+
+/-- the vocabulary the tool uses on a page of PostgreSQL `ver` is exact for that version -/
+theorem exact_of_magic (ver magic : Nat) (h : (ver, magic) ∈ pageMagicTable) : exact (opClass magic) ver = true := by
+  simp only [pageMagicTable, List.mem_cons, Prod.mk.injEq, List.not_mem_nil, or_false] at h
+  rcases h with ⟨rfl, rfl⟩ | ⟨rfl, rfl⟩ | ⟨rfl, rfl⟩ | ⟨rfl, rfl⟩ | ⟨rfl, rfl⟩
+  · exact exact_12
+  · exact exact_13
+  · exact exact_14
+  · exact exact_15
+  · exact exact_16
+
+/-- every resource manager PostgreSQL defines, except Btree (id 11), is printed under PostgreSQL's own name -/
+theorem rm_lt_22 : ∀ rm < 22, rm ≠ 11 → pgRmgrName rm = some (rmgrName rm) := by decide +kernel
 
 theorem pgRmgrName_none (rm : Nat) (h : 22 ≤ rm) : pgRmgrName rm = none := by
   unfold pgRmgrName
